@@ -52,7 +52,15 @@ Record proto := {
   p_cont_stops : list (N * N);           (* (msg, opt): Continue behaves like an internal error *)
   p_post_actions : list (st * bool);     (* generated: (state, namespace): executing it raises the action event *)
   p_abandons : bool;                     (* the listener abandons on error / Stop *)
-  p_async : bool                         (* handling errors of a message are not reported to the caller *)
+  p_async : bool;                        (* handling errors of a message are not reported to the caller *)
+  (* generated: (msg, v3, outbound, has id, has thid, has pthid) -> which identifier of the message is the protocol
+     instance id: 0 = none (the message is refused), 1 = id, 2 = thid, 3 = pthid, 4 = a freshly generated one *)
+  p_resolve : list (N * bool * bool * bool * bool * bool * N * N);
+  (* messages handled at once also need a usable thread id (msg.ThreadID(): there must be an id) although the instance
+     was found through the pthid: 0 = no, 1 = asked for after handling: the caller gets an error, the handling stays
+     (issue-credential), 2 = asked for before handling: refused (present-proof) *)
+  p_tid_check : N;
+  p_pr : N                               (* the problem-report message type *)
 }.
 
 Definition pair_eqb (a b : st * st) : bool := N.eqb (fst a) (fst b) && N.eqb (snd a) (snd b).
@@ -75,6 +83,28 @@ Definition target (p : proto) (m : N) (v3 outbound : bool) : option st :=
 
 Definition is_action (p : proto) (m : N) (v3 : bool) : bool :=
   existsb (fun r => N.eqb m (fst r) && Bool.eqb v3 (snd r)) (p_actions p).
+
+Definition resolve (p : proto) (m : N) (v3 outbound has_id has_thid has_pthid : bool) : N :=
+  match find (fun r => match r with (m', v', o', i', t', q', _, _) =>
+                N.eqb m m' && Bool.eqb v3 v' && Bool.eqb outbound o' && Bool.eqb has_id i' && Bool.eqb has_thid t'
+                && Bool.eqb has_pthid q' end) (p_resolve p) with
+  | Some (_, _, _, _, _, _, k, _) => k
+  | None => 0
+  end.
+
+Definition is_some {A} (o : option A) : bool := match o with Some _ => true | None => false end.
+
+(* the persisted thread a WIRE message is checked against and (if accepted) changes: the identifiers the message
+   carries (each possibly absent, possibly naming any thread) and the generated resolution rule *)
+Definition wire_thread (p : proto) (m : N) (v3 outbound : bool) (i th pth : option thid) (fresh : thid)
+  : option thid :=
+  match resolve p m v3 outbound (is_some i) (is_some th) (is_some pth) with
+  | 1 => i
+  | 2 => th
+  | 3 => pth
+  | 4 => Some fresh
+  | _ => None
+  end.
 
 Definition post_action (p : proto) (c : st) (ns : bool) : bool :=
   existsb (fun r => N.eqb c (fst r) && Bool.eqb ns (snd r)) (p_post_actions p).
@@ -99,7 +129,8 @@ Definition hit_range (f : option nat) (base len : nat) : bool :=
   match f with Some j => Nat.leb base j && Nat.ltb j (base + len) | None => false end.
 
 (* a pending action event: e_src is the thread's state when the event was raised *)
-Record ev := { e_t : thid; e_src : st; e_st : st; e_msg : N; e_v3 : bool; e_flag : bool; e_live : bool }.
+(* e_badtid: the message has no usable thread id of its own (no id; the instance was found through the pthid) *)
+Record ev := { e_t : thid; e_src : st; e_st : st; e_msg : N; e_v3 : bool; e_flag : bool; e_live : bool; e_badtid : bool }.
 
 Record sstate := { persisted : list (thid * st); pending : list ev }.
 Definition s0 : sstate := {| persisted := []; pending := [] |}.
@@ -114,13 +145,16 @@ Definition add_ev (s : sstate) (e : ev) : sstate :=
   {| persisted := persisted s; pending := pending s ++ [e] |}.
 
 (* parameters of one execution context *)
-Record ctx := { c_v3 : bool; c_inbound : bool; c_opt : N; c_flag : bool; c_f : fault }.
+Record ctx := { c_v3 : bool; c_inbound : bool; c_opt : N; c_flag : bool; c_f : fault; c_badtid : bool; c_pr : bool }.
 
 (* the follow-up of executing state c: a terminal state executed inbound has no follow-up
    (done/abandoned/completed return noOp; Spec.exec_terminal_b checks the generated table against this rule);
    otherwise from the generated table, or from the tape (head) *)
 Definition exec1 (p : proto) (k : ctx) (c : st) (tape : list (option st)) : option st * list (option st) :=
-  if terminal p c && c_inbound k then (Some 0, tape)
+  (* abandoning/abandoned answer with a problem report on the message's thread: without a usable thread id their
+     Execute fails (unless the message itself is a problem report, which is not answered) *)
+  if negb (p_tape p) && N.eqb c (p_abandon p) && c_badtid k && negb (c_pr k) then (None, tape)
+  else if terminal p c && c_inbound k then (Some 0, tape)
   else if p_tape p then
     match tape with
     | [] => (Some 0, [])
@@ -185,6 +219,10 @@ Definition run_chain (p : proto) (k : ctx) (c : st) (tape : list (option st)) (n
 
 Inductive op :=
 | Msg (outbound : bool) (m : N) (v3 flag : bool) (t : thid) (f : fault) (tape : list (option st))
+(* a message as it is on the wire: its id / thid / pthid (absent or naming any thread); `fresh` is the identifier
+   the service generates when it finds none (observed) *)
+| Wire (outbound : bool) (m : N) (v3 flag : bool) (i th pth : option thid) (fresh : thid) (f : fault)
+       (tape : list (option st))
 | Continue (e : nat) (opt : N) (f : fault) (tape : list (option st))
 | Stop (e : nat) (f : fault) (tape : list (option st))
 | Accept (e : nat) (tape : list (option st)).
@@ -200,7 +238,7 @@ Definition res_eqb (a b : res) : bool :=
 Fixpoint kill (l : list ev) (n : nat) : list ev :=
   match l, n with
   | e :: r, O => {| e_t := e_t e; e_src := e_src e; e_st := e_st e; e_msg := e_msg e; e_v3 := e_v3 e;
-                    e_flag := e_flag e; e_live := false |} :: r
+                    e_flag := e_flag e; e_live := false; e_badtid := e_badtid e |} :: r
   | e :: r, S n' => e :: kill r n'
   | [], _ => []
   end.
@@ -214,7 +252,7 @@ Definition process (p : proto) (s : sstate) (t : thid) (k : ctx) (m : N) (c : st
   let s1 := commit s t (r_pers r1) in
   let s1' := match r_halt r1 with
              | Some n => add_ev s1 {| e_t := t; e_src := last (r_ann r1) c; e_st := n; e_msg := m; e_v3 := c_v3 k;
-                                      e_flag := c_flag k; e_live := true |}
+                                      e_flag := c_flag k; e_live := true; e_badtid := false |}
              | None => s1
              end in
   if r_ok r1 then (s1', r_ann r1, true, false)
@@ -224,9 +262,8 @@ Definition process (p : proto) (s : sstate) (t : thid) (k : ctx) (m : N) (c : st
      negb skip && terminal p (last (r_ann r1) (cur p s t)))
   else (s1, r_ann r1, false, false).
 
-Definition step_full (p : proto) (s : sstate) (o : op) : sstate * (res * list st) * bool :=
-  match o with
-  | Msg outbound m v3 flag t f tape =>
+Definition msg_step (p : proto) (s : sstate) (outbound : bool) (m : N) (v3 flag : bool) (t : thid) (bt : bool) (f : fault)
+    (tape : list (option st)) : sstate * (res * list st) * bool :=
       if f_get f then (s, (RReject, []), false)
       else
       match target p m v3 outbound with
@@ -236,13 +273,35 @@ Definition step_full (p : proto) (s : sstate) (o : op) : sstate * (res * list st
           else if negb outbound && is_action p m v3 then
                  if f_tp f then (s, (RReject, []), false)
                  else (add_ev s {| e_t := t; e_src := cur p s t; e_st := x; e_msg := m; e_v3 := v3; e_flag := flag;
-                                   e_live := true |}, (RAction, []), false)
+                                   e_live := true; e_badtid := bt |}, (RAction, []), false)
                else
-                 let k := {| c_v3 := v3; c_inbound := negb outbound; c_opt := 0; c_flag := flag; c_f := f |} in
+                 let k := {| c_v3 := v3; c_inbound := negb outbound; c_opt := 0; c_flag := flag; c_f := f; c_badtid := bt;
+                             c_pr := N.eqb m (p_pr p) |} in
                  let '(s1, ann, ok, _) := process p s t k m x false false tape in
                  (s1, (if ok || p_async p
                        then (if Nat.ltb (length (pending s)) (length (pending s1)) then RAction else ROk)
                        else RErr, ann), false)
+      end.
+
+(* the handling succeeded but the caller is told an error *)
+Definition relabel (b : bool) (r : res) : res := if b then match r with ROk => RErr | _ => r end else r.
+
+Definition step_full (p : proto) (s : sstate) (o : op) : sstate * (res * list st) * bool :=
+  match o with
+  | Msg outbound m v3 flag t f tape => msg_step p s outbound m v3 flag t false f tape
+  | Wire outbound m v3 flag i th pth fresh f tape =>
+      match wire_thread p m v3 outbound i th pth fresh with
+      | Some t =>
+          let bt := negb (is_some i) && negb (N.eqb (resolve p m v3 outbound (is_some i) (is_some th) (is_some pth)) 4) in
+          let bad_tid := bt && negb (negb outbound && is_action p m v3) in
+          if bad_tid && N.eqb (p_tid_check p) 2 then (s, (RReject, []), false)
+          else
+            (* a freshly generated id: nothing is read from the store *)
+            let f' := if N.eqb (resolve p m v3 outbound (is_some i) (is_some th) (is_some pth)) 4
+                      then {| f_get := false; f_tp := f_tp f; f_put := f_put f; f_act := f_act f |} else f in
+            let '(s1, (r, ann), fat) := msg_step p s outbound m v3 flag t bt f' tape in
+            (s1, (relabel (bad_tid && N.eqb (p_tid_check p) 1) r, ann), fat)
+      | None => (s, (RReject, []), false)          (* no usable identifier: refused, nothing consulted *)
       end
   | Continue e opt f tape =>
       match nth_error (pending s) e with
@@ -250,7 +309,8 @@ Definition step_full (p : proto) (s : sstate) (o : op) : sstate * (res * list st
           if e_live v then
             let s' := {| persisted := persisted s; pending := kill (pending s) e |} in
             let skip := existsb (fun r => N.eqb (fst r) (e_msg v) && N.eqb (snd r) opt) (p_cont_stops p) in
-            let k := {| c_v3 := e_v3 v; c_inbound := true; c_opt := opt; c_flag := e_flag v; c_f := f |} in
+            let k := {| c_v3 := e_v3 v; c_inbound := true; c_opt := opt; c_flag := e_flag v; c_f := f; c_badtid := e_badtid v;
+                        c_pr := N.eqb (e_msg v) (p_pr p) |} in
             let '(s2, ann, _, fat) := process p s' (e_t v) k (e_msg v) (e_st v) skip true tape in
             (s2, (ROk, ann), fat)
           else (s, (RNoEvent, []), false)
@@ -262,7 +322,8 @@ Definition step_full (p : proto) (s : sstate) (o : op) : sstate * (res * list st
           if e_live v then
             let s' := {| persisted := persisted s; pending := kill (pending s) e |} in
             let skip := negb (memN (e_msg v) (p_stop_handles p)) in
-            let k := {| c_v3 := e_v3 v; c_inbound := true; c_opt := 0; c_flag := e_flag v; c_f := f |} in
+            let k := {| c_v3 := e_v3 v; c_inbound := true; c_opt := 0; c_flag := e_flag v; c_f := f; c_badtid := e_badtid v;
+                        c_pr := N.eqb (e_msg v) (p_pr p) |} in
             let '(s2, ann, _, fat) := process p s' (e_t v) k (e_msg v) (e_st v) skip true tape in
             (s2, (ROk, ann), fat)
           else (s, (RNoEvent, []), false)
@@ -273,7 +334,8 @@ Definition step_full (p : proto) (s : sstate) (o : op) : sstate * (res * list st
       | Some v =>
           if N.eqb (cur p s (e_t v)) (e_src v) then
             let s' := {| persisted := persisted s; pending := kill (pending s) e |} in
-            let k := {| c_v3 := e_v3 v; c_inbound := true; c_opt := 0; c_flag := e_flag v; c_f := nofault |} in
+            let k := {| c_v3 := e_v3 v; c_inbound := true; c_opt := 0; c_flag := e_flag v; c_f := nofault; c_badtid := e_badtid v;
+                        c_pr := N.eqb (e_msg v) (p_pr p) |} in
             let '(s2, ann, ok, _) := process p s' (e_t v) k (e_msg v) (e_st v) false false tape in
             (s2, (if ok then ROk else RErr, ann), false)
           else (s, (RReject, []), false)
@@ -286,9 +348,10 @@ Definition step (p : proto) (s : sstate) (o : op) : sstate * (res * list st) := 
 Definition step_fat (p : proto) (s : sstate) (o : op) : bool := snd (step_full p s o).
 
 (* the thread an operation works on *)
-Definition op_thread (s : sstate) (o : op) : option thid :=
+Definition op_thread (p : proto) (s : sstate) (o : op) : option thid :=
   match o with
   | Msg _ _ _ _ t _ _ => Some t
+  | Wire outbound m v3 _ i th pth fresh _ _ => wire_thread p m v3 outbound i th pth fresh
   | Continue e _ _ _ | Stop e _ _ =>
       match nth_error (pending s) e with Some v => if e_live v then Some (e_t v) else None | None => None end
   | Accept e _ => match nth_error (pending s) e with Some v => Some (e_t v) | None => None end
@@ -322,6 +385,11 @@ Definition is_reject (r : res) : bool := match r with RReject => true | _ => fal
 Definition disciplined_step (p : proto) (s : sstate) (o : op) : bool :=
   match o with
   | Msg _ _ _ _ t _ _ => negb (has_live s t) || is_reject (fst (snd (step p s o)))
+  | Wire outbound m v3 _ i th pth fresh _ _ =>
+      match wire_thread p m v3 outbound i th pth fresh with
+      | Some t => negb (has_live s t) || is_reject (fst (snd (step p s o)))
+      | None => true
+      end
   | Accept e _ =>
       is_reject (fst (snd (step p s o))) ||
       match nth_error (pending s) e with Some v => negb (live_others (pending s) e (e_t v)) | None => true end
@@ -344,7 +412,7 @@ Fixpoint is_path (p : proto) (l : list st) : bool :=
 (* one step respects the graph: the announced states continue the thread's persisted state along edges,
    the new persisted state is one of them (or unchanged), a terminal state announces nothing *)
 Definition step_ok (p : proto) (s : sstate) (o : op) : bool :=
-  match op_thread s o with
+  match op_thread p s o with
   | None => true
   | Some t =>
       let '(s', (_, ann)) := step p s o in
@@ -359,4 +427,4 @@ Fixpoint all_steps_ok (p : proto) (s : sstate) (ops : list op) : bool :=
   end.
 
 Definition op_fault (o : op) : fault :=
-  match o with Msg _ _ _ _ _ f _ | Continue _ _ f _ | Stop _ f _ => f | Accept _ _ => nofault end.
+  match o with Msg _ _ _ _ _ f _ | Wire _ _ _ _ _ _ _ _ f _ | Continue _ _ f _ | Stop _ f _ => f | Accept _ _ => nofault end.
